@@ -42,7 +42,8 @@ type scriptReader struct {
 		data []byte
 		err  string
 	}
-	i int
+	i         int
+	zeroReads bool
 }
 
 func (s *scriptReader) Read(p []byte) (int, error) {
@@ -65,10 +66,10 @@ func (s *scriptReader) Read(p []byte) (int, error) {
 			s.i = len(s.steps)
 			return n, errR
 		}
-		if n > 0 {
-			return n, nil
+		if n > 0 || s.zeroReads {
+			return n, nil // with zeroReads an empty chunk is a real (0, nil) read (allowed, if discouraged, by io.Reader)
 		}
-		// empty chunk without error: skip (a reader must not return 0, nil forever)
+		// empty chunk without error: skip
 	}
 }
 
@@ -167,7 +168,37 @@ func (c18) Gen(tier string, seed int64, emit func([]Ev)) {
 		if r.Intn(4) == 0 {
 			via = "bufio"
 		}
-		emit([]Ev{{"op": "readfrom", "adapter": ad, "script": script, "fail_at": failAt, "via": via}})
+		zero := false
+		if r.Intn(6) == 0 {
+			// reads that return no data and no error, sprinkled between the others (never more than three in a
+			// row, but many over the whole stream)
+			zero, via = true, "direct"
+			sc := []Ev{}
+			total := 0
+			for _, st := range script {
+				for k := r.Intn(4); k > 0; k-- {
+					sc = append(sc, Ev{"data": []int{}, "err": "nil"})
+					total++
+				}
+				sc = append(sc, st)
+			}
+			for total < 160 && len(script) > 0 { // make it many: prepend one more before every step, round robin
+				var sc2 []Ev
+				for _, st := range sc {
+					if len(GB(st["data"])) > 0 && total < 160 {
+						sc2 = append(sc2, Ev{"data": []int{}, "err": "nil"})
+						total++
+					}
+					sc2 = append(sc2, st)
+				}
+				if len(sc2) == len(sc) {
+					break
+				}
+				sc = sc2
+			}
+			script = sc
+		}
+		emit([]Ev{{"op": "readfrom", "adapter": ad, "script": script, "fail_at": failAt, "via": via, "zero_reads": zero}})
 	}
 }
 
@@ -215,6 +246,7 @@ func (c18) Exec(h []Ev) []Ev {
 						err  string
 					}{GB(m["data"]), GS(m["err"])})
 				}
+				sr.zeroReads, _ = e["zero_reads"].(bool)
 				var rd io.Reader = sr
 				if GS(e["via"]) == "bufio" {
 					rd = bufio.NewReaderSize(sr, 64)
